@@ -31,6 +31,7 @@ import (
 	"github.com/awslabs/ar-go-tools/analysis/lang"
 	"github.com/awslabs/ar-go-tools/internal/analysisutil"
 	"github.com/awslabs/ar-go-tools/internal/formatutil"
+	"github.com/awslabs/ar-go-tools/internal/verifhook"
 	"golang.org/x/tools/go/packages"
 	"golang.org/x/tools/go/ssa"
 )
@@ -262,6 +263,7 @@ func (v *Visitor) visit(s *df.AnalyzerState, entrypoint *df.CallNodeArg) error {
 	stack := []*df.VisitorNode{root}
 
 	for len(stack) != 0 {
+		verifhook.At("backtrace.visit.step")
 		cur := stack[len(stack)-1]
 		stack = stack[0 : len(stack)-1]
 
